@@ -236,7 +236,24 @@ def from_filename(seq, filename):
 
 # ---- glyph names
 
-_CPS = [0x67, 0x41, 0x7A, 0x30, 0x39, 0x1F600, 0x1F3FB, 0x200D, 0xFE0F, 0xA9, 0x2198, 0xE000, 0x10FFFF, 0x23, 0x2A, 0xABCDE]
+_CPS = [0x67, 0x41, 0x7A, 0x30, 0x39, 0x1F600, 0x1F3FB, 0x200D, 0xFE0F, 0xA9, 0x2198, 0xE000, 0x10FFFF, 0x23, 0x2A, 0xABCDE, 0xE9, 0xC5, 0x3B1, 0x5B57, 0xAA, 0x5F, 0x2E]
+
+
+def name_token_problems():
+    """every code point: one ASCII letter, or lower-case hex of the code point"""
+    from nanoemoji.glyph import _name
+    import string
+
+    letters = set(string.ascii_letters)
+    bad = []
+    for cp in range(0x110000):
+        t = _name(cp)
+        want = chr(cp) if chr(cp) in letters else "%x" % cp
+        if t != want:
+            bad.append((cp, t))
+            if len(bad) > 5:
+                break
+    return bad
 
 
 def _f6_class(a, b):
